@@ -295,6 +295,7 @@ class RF24:
         if not send_only and self._status >> 1 & 7 < 6:
             self.flush_rx()
         self.clear_status_flags()
+        self.update()
         self.ce_pin = 1
         while not self._status & 0x30:
             self.update()
